@@ -50,6 +50,16 @@ class Check(PropCheck):
         for n in range(0, maxlen + 1):
             for seq in itertools.product(range(len(ALPHA)), repeat=n):
                 yield Case({'toks': [ALPHA[i] for i in seq], 'rich': 0, 'via': 'direct'}, 'exhaustive')
+        # reuse of one parser object: every short sequence after a previous parse that left elements of the *same names*
+        # open, raised at once, or was complete (state kept from one parse to the next shows here)
+        prevs = [[['start', 'a', []]], [['start', 'b', []], ['start', 'a', []]], [['start', 'a', []], ['end', 'b']],
+                 [['start', 'b', []], ['start', 'a', [['a$b', 'v']]]], [['start', 'a', []], ['end', 'a'], ['data', 'x']],
+                 [['start', 'a', []], ['start', 'a', []], ['start', 'b', []], ['end', 'a']]]
+        for n in range(1, (4 if tier == 'thorough' else 3) + 1):
+            for seq in itertools.product(range(len(ALPHA)), repeat=n):
+                for k, prev in enumerate(prevs):
+                    if tier == 'thorough' or (sum(seq) + k) % 2 == 0:
+                        yield Case({'toks': [ALPHA[i] for i in seq], 'rich': 0, 'via': 'direct', 'prev': prev}, 'exhaustive-reuse')
         gen = c02.Check()
         n = 6000 if tier == 'thorough' else 800
         for i in range(n):
@@ -60,8 +70,9 @@ class Check(PropCheck):
             yield Case({'toks': toks, 'rich': rng.randrange(1, 1 << 30), 'via': 'direct'}, 'random')
             if i % 3 == 0:
                 # the same validating parser object parsed something else before (possibly rejected at once)
+                opens = [[t[0], t[1], []] for t in toks if t[0] == 'start'][:rng.randint(1, 4)]      # same names, left open
                 prev = rng.choice([gen.random_tokens(rng), [['end', 'x']], [['start', 'a', [['a$b', 'v']]]], [],
-                                   [['decl', 'DOCTYPE html']], [['start', 'a', []], ['start', 'b', []]]])
+                                   [['decl', 'DOCTYPE html']], [['start', 'a', []], ['start', 'b', []]], opens, opens])
                 yield Case({'toks': toks, 'rich': rng.randrange(1, 1 << 30), 'via': 'direct', 'prev': prev}, 'random-reuse')
             if i % 2 == 0:
                 yield Case({'toks': toks, 'rich': rng.randrange(1, 1 << 30), 'via': 'html'}, 'random-html')
